@@ -61,11 +61,13 @@ def op_instances(objs=OBJ, props=PROP, extra=('x',)):
     return ops
 
 
-def step_compare(run, d, world, op, hist):
+def step_compare(run, d, world, op, hist, outcome=None):
     """Apply one op to implementation and model and compare everything observable."""
     drv = run.driver
     before = defs.state(d)
     res = defs.apply_op(d, op, world)
+    if outcome is not None:
+        outcome['rejected'] = res[0] != 'ok'
     after = defs.state(d)
     line = defs.op_line(0, op)
     ans = drv.ask(line)
@@ -128,6 +130,53 @@ def run(run):
         world[10 + k] = Definition(*t)
         drv.ask(defs.dnew_line(10 + k, *t))
     ops = op_instances()
+    # second use after a rejected call: the *same* object goes on being edited with every op instance that mentions a name the
+    # rejected call mentioned (a rejected call must leave no residue - also none that only a later edit brings to light)
+    def names_of(op):
+        out = set()
+        for a in op[1:]:
+            if isinstance(a, str):
+                out.add(a)
+            elif isinstance(a, (list, tuple)):
+                out.update(x for x in a if isinstance(x, str))
+        return out
+    seeds = POOL[1:4] if run.tier == 'quick' else POOL
+    follow = 0
+    for t in seeds:
+        if not run.time_left():
+            break
+        setup = defs.dnew_line(0, *t)
+        rejected = []
+        for op in ops:
+            if op[0] in ('union_update', 'intersection_update'):
+                continue
+            oc = {}
+            d = Definition(*t)
+            drv.ask(setup)
+            with guard(run, lambda: 'history %r' % ([op],), lambda: [setup, defs.op_line(0, op)]):
+                step_compare(run, d, world, op, [setup], oc)
+            if oc.get('rejected'):
+                rejected.append(op)
+        for k, op in enumerate(rejected):
+            if run.tier == 'quick' and k % 2 == 1 and len(rejected) > 60:
+                continue
+            mentioned = names_of(op)
+            for op2 in ops:
+                if op2[0] in ('union_update', 'intersection_update') or not (names_of(op2) & mentioned):
+                    continue
+                if not run.time_left():
+                    break
+                line1 = defs.op_line(0, op)
+                with guard(run, lambda: 'history %r' % ([op, op2],), lambda: [setup, line1, defs.op_line(0, op2)]):
+                    d = Definition(*t)
+                    drv.ask(setup)
+                    defs.apply_op(d, op, world)
+                    drv.ask(line1)
+                    step_compare(run, d, world, op2, [setup, line1])
+                follow += 1
+                run.case(defs.state(d) + '|' + repr(op) + '|' + repr(op2), True)
+        run.count('rejected calls followed up', len(rejected))
+    run.counters['edits after a rejected call (same object)'] = follow
     max_states = 260 if run.tier == 'quick' else 6000
     max_depth = 3 if run.tier == 'quick' else 5
     seen = set()
@@ -138,7 +187,9 @@ def run(run):
             seen.add(st)
             queue.append((st, 0, []))
     expanded = 0
-    while queue and expanded < max_states and run.time_left():
+    import time
+    bfs_deadline = None if run.deadline is None else time.time() + 0.5 * (run.deadline - time.time())   # leave time for the random histories
+    while queue and expanded < max_states and (bfs_deadline is None or time.time() < bfs_deadline):
         st, depth, hist = queue.popleft()
         expanded += 1
         t = defs.triple_of_state(st)
@@ -194,13 +245,13 @@ def run(run):
             if k <= 2:
                 op = ('setitem', ro, rp, rng.random() < .7)
             elif k == 3:
-                op = ('rename_object', rng.choice(cur_o), ro)
+                op = ('rename_object', rng.choice(cur_o) if rng.random() < .8 else rng.choice(big_o), ro)
             elif k == 4:
-                op = ('rename_property', rng.choice(cur_p), rp)
+                op = ('rename_property', rng.choice(cur_p) if rng.random() < .8 else rng.choice(big_p), rp)
             elif k == 5:
-                op = ('move_object', rng.choice(cur_o), rng.randint(-3, 6))
+                op = ('move_object', rng.choice(cur_o) if rng.random() < .85 else rng.choice(big_o), rng.randint(-3, 6))
             elif k == 6:
-                op = ('move_property', rng.choice(cur_p), rng.randint(-3, 6))
+                op = ('move_property', rng.choice(cur_p) if rng.random() < .85 else rng.choice(big_p), rng.randint(-3, 6))
             elif k == 7:
                 op = ('add_object', ro, rng.sample(big_p, rng.randint(0, 4)))
             elif k == 8:
